@@ -161,3 +161,4 @@ package kvcache
 //@   loop 2 invariant forall j int :: dst <= j && j <= src ==> (j == src && len(c.cells[j].sequences) == 0) || (c.cells[j].pos == old(c.cells[j].pos) && c.cells[j].sequences == old(c.cells[j].sequences))
 //@   loop 2 invariant forall k int :: 0 <= k && k < pendingLen ==> len(c.cells[pendingDst+k].sequences) != 0 && c.cells[pendingDst+k].pos == old(c.cells[pendingSrc+k].pos) && c.cells[pendingDst+k].sequences == old(c.cells[pendingSrc+k].sequences)
 //@   loop 3 invariant dst <= src && src < len(c.cells) && (pendingLen > 0 ==> src <= pendingSrc)
+//@   loop 3 invariant forall j int :: dst <= j && j <= src ==> (j == src && len(c.cells[j].sequences) == 0) || (c.cells[j].pos == old(c.cells[j].pos) && c.cells[j].sequences == old(c.cells[j].sequences))
